@@ -17,7 +17,7 @@ import numpy as np
 
 from .. import cards, common, recorder
 
-NAMES = {"F2": "F2_total", "FL": "FL_total", "XS": "XSHERANCAVG_total"}
+NAMES = {"F2": "F2_total", "FL": "FL_total", "XS": "XSHERANCAVG_total", "F2s": "F2"}   # "F2s": the short card spelling of F2_total
 RNAMES = {v: k for k, v in NAMES.items()}
 QS = [10.0, 40.0, 0.8, 0.5]   # nf = 4, 5, 3, 3 with mc=2, mb=5; the last two overlap numerically with x values
 QSORT = sorted(QS)            # Q2 ids are assigned in ascending order (the runner sorts elements by Q2)
@@ -97,12 +97,15 @@ def make_plans(seed, quick):
         plans.append((t, 1, [("F2", [kin(xa1, QS[0], False)]), ("FL", [kin(xb, QS[0], False), kin(xa1, QS[0], True)])]))
         plans.append((t, 1, [("XS", [kin(xb, QS[0], False, True)]), ("F2", [kin(xb, QS[0], False)])]))
         plans.append((t, 1, [("F2", [kin(xb, QS[0], False)]), ("XS", [kin(xb, QS[0], False, True), kin(xb, QS[1], True, True)])]))
+        # both spellings of the same structure function side by side, different kinematics, both orders
+        plans.append((t, 1, [("F2s", [kin(xb, QS[0], False), kin(xa1, QS[0], False)]), ("F2", [kin(xn, QS[1], False)])]))
+        plans.append((t, 2, [("F2", [kin(xn, QS[1], False)]), ("F2s", [kin(xb, QS[0], False), kin(xa1, QS[0], False)])]))
     # seeded random histories
     n_rand = 24 if quick else 260
     for _ in range(n_rand):
         t = rng.choice(tmcs)
         nobs = rng.choice([1, 2, 2, 3])
-        names = rng.sample(["F2", "FL", "XS"], nobs)
+        names = rng.sample(["F2", "FL", "XS", "F2s"], nobs)
         plan = [(n, rand_kins(rng.choice([1, 2, 3]), n)) for n in names]
         plans.append((t, rng.choice([1, 1, 2]), plan))
     return plans, hdr, xid
@@ -110,13 +113,14 @@ def make_plans(seed, quick):
 
 def execute(job):
     """One real Runner execution of a plan; returns the recorded trace lines (floats still raw)."""
-    tid, tmc, ncalls, plan = job
+    tid, tmc, ncalls, plan = job[:4]
+    target = job[4] if len(job) > 4 else "proton"
     xg = cards.make_grid(GRID_N // 2, GRID_N - GRID_N // 2, x_min=1e-2)
     th = cards.theory(PTO=1, PTODIS=1, FNS="ZM-VFNS", mc=2.0, mb=5.0, mt=170.0, TMC=tmc, MP=MP, Q0=1.0)
     obsd = {}
     for n, ks in plan:
         obsd[NAMES[n]] = [{k: v for k, v in kd} for kd in ks]
-    ob = cards.obs(obsd, xgrid=xg, deg=3, prDIS="EM")
+    ob = cards.obs(obsd, xgrid=xg, deg=3, prDIS="EM", TargetDIS=target)
     cards.silence()
     from yadism import runner as yr
 
@@ -236,6 +240,10 @@ def run(ctx):
     ctx.tlc_check("MC_RunLoop", mc_cfg("byname", MaxObs=2, AllowSwapped=False, TMCS={0, 1} if q else {0, 1, 2, 3},
                                        MaxCalls=1 if q else 2, OBS={"F2", "FL", "XS"}),
                   coverage=False, min_states=10000, timeout=3000)
+    # the two spellings of one structure function in one card (an SF object each, shared internals)
+    ctx.tlc_check("MC_RunLoop", mc_cfg("byname", MaxObs=2, AllowSwapped=False, TMCS={0, 1} if q else {0, 1, 2, 3},
+                                       MaxCalls=1 if q else 2, OBS={"F2", "F2s"} if q else {"F2", "F2s", "XS"}),
+                  coverage=False, min_states=10000, timeout=3000)
     # sensitivity of the model: keyed by the VALUES in dict order (the behaviour before the repair) TLC must find the collision
     r = common.run_tlc("MC_RunLoop", mc_cfg("dictorder"), workdir=ctx.dir / "tlc_dictorder")
     if r["ok"] or r["invariant_violated"] != "SlotsIdeal":
@@ -264,6 +272,25 @@ def run(ctx):
         key = f"history:{common.oid_of('C14', dict(tmc=t, ncalls=n, plan=p))}:{clause}"
         ctx.violation(key, f"{clause} in recorded run {desc}", dict(kind="C14", job=[tid, t, n, p], clause=clause))
     ctx.cov["distinct_digests"] = len(dig)
+    # the same histories on a nuclear target (the isospin rotation is applied per kernel, in place on the kernel's own weights):
+    # a batch of its own - the ideal term of RunLoop does not name the target, which is constant within the batch
+    sub = [(i, t, n, p) for i, (t, n, p) in enumerate(plans) if t in (0, 1)][:: (3 if q else 2)]
+    raw2 = ctx.pmap(execute, [j + ("iron",) for j in sub], chunksize=2)
+    dig2 = {}
+    traces2 = [to_ids(t, xid, dig2) for t in raw2]
+    for t in traces2:
+        ctx.count(1, nontrivial_key=("iron", t[0]["tid"]) if sum(1 for e in t if e["ev"] == "Elem") >= 2 else None)
+    bad2 = validate(ctx, traces2, hdr, "runs_iron")
+    for t in traces2:
+        tid = t[0]["tid"]
+        crash = [e for e in t if e["ev"] == "Crash"]
+        if crash and tid not in bad2:
+            bad2[tid] = "crash_" + crash[0]["etype"]
+    for tid, clause in sorted(bad2.items()):
+        t, n, p = plans[tid]
+        desc = json.dumps(dict(target="iron", tmc=t, ncalls=n, plan=[[nm, [[[k, (round(v, 6) if isinstance(v, float) else v)] for k, v in kd] for kd in ks]] for nm, ks in p]))
+        key = f"history:iron:{common.oid_of('C14', dict(tmc=t, ncalls=n, plan=p))}:{clause}"
+        ctx.violation(key, f"{clause} in recorded run {desc}", dict(kind="C14", job=[tid, t, n, p, "iron"], clause=clause))
     selftest(ctx, [t for t in traces if t[0]["tid"] not in bad], hdr, len(dig))
 
 
@@ -308,14 +335,15 @@ def selftest(ctx, good, hdr, ndig):
 
 
 def replay(ctx, obj):
-    tid, t, n, p = obj["job"]
+    tid, t, n, p = obj["job"][:4]
+    tgt = tuple(obj["job"][4:5])
     plans, hdr, xid = make_plans(obj.get("seed", 0), True)
     # the offending run together with solo runs of each of its requests (the history-free reference)
-    jobs = [(0, t, n, p)]
+    jobs = [(0, t, n, p) + tgt]
     k = 1
     for nm, ks in p:
         for kd in ks:
-            jobs.append((k, t, 1, [(nm, [kd])]))
+            jobs.append((k, t, 1, [(nm, [kd])]) + tgt)
             k += 1
     raw = [execute(j) for j in jobs]
     dig = {}
